@@ -39,6 +39,14 @@ func loadDesign(name string) (*spec.Design, error) {
 	}
 	d, err := spec.Load(filepath.Join(os.Getenv("VERIF_SPEC_DIR"), name+".json"))
 	if err == nil {
+		// on the model side the result of a CollectionOf method is what it is: an array of the element type
+		for _, sv := range d.Services {
+			for _, m := range sv.Methods {
+				if m.Collection && m.Result != nil && m.Result.Type.Kind == spec.User {
+					m.Result = &spec.Attr{Type: &spec.Type{Kind: spec.Array, Elem: &spec.Attr{Type: m.Result.Type}}}
+				}
+			}
+		}
 		designCache[name] = d
 	}
 	return d, err
@@ -1489,10 +1497,17 @@ func judgeSecurity(o *engine.Outcome, w *world, d *spec.Design, s *spec.Service,
 
 // resultType returns the result type (with views) a method returns, or nil.
 func resultType(d *spec.Design, m *spec.Method) *spec.UserType {
-	if m.Result == nil || m.Result.Type.Kind != spec.User {
+	if m.Result == nil {
 		return nil
 	}
-	if u := d.UserType(m.Result.Type.Name); u != nil && u.IsResult {
+	t := m.Result.Type
+	if m.Collection && t.Kind == spec.Array {
+		t = t.Elem.Type
+	}
+	if t.Kind != spec.User {
+		return nil
+	}
+	if u := d.UserType(t.Name); u != nil && u.IsResult {
 		return u
 	}
 	return nil
@@ -1547,6 +1562,29 @@ func wireKeys(d *spec.Design, raw json.RawMessage, u *spec.UserType, view string
 	return errs
 }
 
+// wireKeysOf applies wireKeys to the body of a result-type method, element by element for a collection.
+func wireKeysOf(d *spec.Design, m *spec.Method, raw json.RawMessage, u *spec.UserType, view string, sent any) []string {
+	if !m.Collection {
+		return wireKeys(d, raw, u, view, sent, "body")
+	}
+	var raws []json.RawMessage
+	ss, _ := sent.([]any)
+	if err := json.Unmarshal(raw, &raws); err != nil {
+		if len(ss) == 0 && strings.TrimSpace(string(raw)) == "null" {
+			return nil
+		}
+		return []string{fmt.Sprintf("body is not a JSON array: %v", err)}
+	}
+	if len(raws) != len(ss) {
+		return []string{fmt.Sprintf("body carries %d elements, the service returned %d", len(raws), len(ss))}
+	}
+	var errs []string
+	for i := range raws {
+		errs = append(errs, wireKeys(d, raws[i], u, view, ss[i], fmt.Sprintf("body[%d]", i))...)
+	}
+	return errs
+}
+
 func judgeView(o *engine.Outcome, w *world, d *spec.Design, s *spec.Service, m *spec.Method, ex *simnet.Exchange, sent, res any, viewName, viewClass string, cerr error, where string) {
 	u := resultType(d, m)
 	o.Features["c08_view_"+viewClass]++
@@ -1576,6 +1614,8 @@ func judgeView(o *engine.Outcome, w *world, d *spec.Design, s *spec.Service, m *
 			o.Features["c08_undefined_view_handler_panic"]++
 		case cerr != nil:
 			o.Features["c08_undefined_view_error"]++
+		case m.Collection && (sent == nil || isEmptyArr(sent) || strings.TrimSpace(string(ex.RespBody)) == "[]"):
+			o.Features["c08_undefined_view_empty_collection"]++ // no element, so nothing was rendered with the view that does not exist
 		default:
 			o.Violate("undefined_view_rendered", "undefined_view_rendered", "%s: the service asked for view %q which %s does not define and the client got a success: %s (body %q)", where, viewName, u.Name, gen.Show(gen.FromGo(d, reflect.ValueOf(res), m.Result.Type)), clipS(string(ex.RespBody)))
 		}
@@ -1594,7 +1634,7 @@ func judgeView(o *engine.Outcome, w *world, d *spec.Design, s *spec.Service, m *
 	if multi && hv != rendered {
 		o.Violate("view_header", "view_header:"+sig, "%s: rendered view %q but the goa-view header says %q", where, rendered, hv)
 	}
-	for _, e := range wireKeys(d, ex.RespBody, u, rendered, sent, "body") {
+	for _, e := range wireKeysOf(d, m, ex.RespBody, u, rendered, sent) {
 		if sameTypeTwoViews && underAffected(memoAffected(d, u, rendered), e) {
 			o.Violate("view_wire", "view:same-nested-type-under-two-views", "%s: view %q: %s\n  full value %s\n  body %q", where, rendered, e, gen.Show(sent), clipS(string(ex.RespBody)))
 			return
@@ -1645,8 +1685,22 @@ func judgeView(o *engine.Outcome, w *world, d *spec.Design, s *spec.Service, m *
 		return
 	}
 	got := gen.FromGo(d, reflect.ValueOf(res), m.Result.Type)
-	want := gen.Expected(d, gen.Project(d, sent, u, rendered), &spec.Attr{Type: &spec.Type{Kind: spec.Object, Fields: u.Attr.Type.Fields}})
+	elemAttr := &spec.Attr{Type: &spec.Type{Kind: spec.Object, Fields: u.Attr.Type.Fields}}
+	want := gen.Expected(d, gen.Project(d, sent, u, rendered), elemAttr)
 	gotIn := gen.Project(d, got, u, rendered)
+	if m.Collection {
+		// element by element
+		ss, _ := sent.([]any)
+		gs, _ := got.([]any)
+		ws, gis := make([]any, len(ss)), make([]any, len(gs))
+		for i := range ss {
+			ws[i] = gen.Expected(d, gen.Project(d, ss[i], u, rendered), elemAttr)
+		}
+		for i := range gs {
+			gis[i] = gen.Project(d, gs[i], u, rendered)
+		}
+		want, gotIn = ws, gis
+	}
 	if diff := gen.Diff(want, gotIn, ""); diff != "" && sameTypeTwoViews && underAffected(memoAffected(d, u, rendered), strings.TrimPrefix(diff, ".")) {
 		o.Violate("view_value", "view:same-nested-type-under-two-views", "%s: view %q: %s", where, rendered, diff)
 	} else if diff != "" && strings.Contains(diff, ".") && strings.Contains(diff, "got <unset>") && nestedUnderSeveralViews(d, s, u, rendered) {
@@ -1655,7 +1709,13 @@ func judgeView(o *engine.Outcome, w *world, d *spec.Design, s *spec.Service, m *
 	} else if diff != "" {
 		o.Violate("view_value", "view_value:"+sig, "%s: view %q: %s\n  service returned %s\n  client rebuilt   %s", where, rendered, diff, gen.Show(sent), gen.Show(got))
 	}
-	if out := gen.OutsideView(d, got, u, rendered, ""); len(out) > 0 {
+	out := gen.OutsideView(d, got, u, rendered, "")
+	if gs, ok := got.([]any); ok && m.Collection {
+		for i, g := range gs {
+			out = append(out, gen.OutsideView(d, g, u, rendered, fmt.Sprintf("[%d]", i))...)
+		}
+	}
+	if len(out) > 0 {
 		o.Violate("view_leak", "view_leak:"+sig, "%s: view %q: attributes outside the view are set on the client: %v (body %q)", where, rendered, out, clipS(string(ex.RespBody)))
 	}
 }
@@ -1824,7 +1884,9 @@ func judgeContract(o *engine.Outcome, w *world, d *spec.Design, design string, s
 				rerr = c.docVerdictResponse(&ex2, route, params, req)
 			}
 		}
-		if u := resultType(d, m); rerr != nil && u != nil && strings.Contains(rerr.Error(), "is missing") && ex.Status < 400 {
+		// (the recorded finding is about views chosen at run time: one documented schema cannot fit them all. A view
+		// FIXED in the design is known when the document is written, and the document describes exactly that projection)
+		if u := resultType(d, m); rerr != nil && u != nil && m.FixedView == "" && strings.Contains(rerr.Error(), "is missing") && ex.Status < 400 {
 			o.Violate("contract_response", "response:view-omits-required-attribute", "%s: the %d response (view %q) does not conform to openapi3.json: %v\n  body %q", where, ex.Status, ex.RespHeader.Get("Goa-View"), firstLine(rerr.Error()), clipS(string(ex.RespBody)))
 			rerr = nil
 		}
@@ -2010,6 +2072,11 @@ func memoAffected(d *spec.Design, u *spec.UserType, view string) []string {
 // attribute the recorded projection defect misrenders.
 func underAffected(affected []string, complaint string) bool {
 	c := strings.TrimPrefix(complaint, "body.")
+	if strings.HasPrefix(c, "body[") || strings.HasPrefix(c, "[") {
+		if i := strings.Index(c, "]."); i >= 0 {
+			c = c[i+2:] // an element of a collection
+		}
+	}
 	for _, a := range affected {
 		if c == a || strings.HasPrefix(c, a+".") || strings.HasPrefix(c, a+" ") || strings.HasPrefix(c, a+"[") || strings.HasPrefix(c, a+":") {
 			return true
@@ -2051,7 +2118,7 @@ func memoHit(d *spec.Design, u *spec.UserType, view string, seen map[string]bool
 // that cause is recognisable from the design and the values, else of the
 // panicking function class.
 func panicCause(d *spec.Design, m *spec.Method, result any, ex *simnet.Exchange) string {
-	if strings.Contains(ex.PanicStack, "ResponseBody") && sameNestedTypeTwoViews(d, resultType(d, m)) {
+	if (strings.Contains(ex.PanicStack, "ResponseBody") || strings.Contains(ex.PanicStack, "ResponseCollection")) && sameNestedTypeTwoViews(d, resultType(d, m)) {
 		return "view:same-nested-type-under-two-views"
 	}
 	if m.Result != nil && strings.Contains(ex.PanicStack, "Encode") {
